@@ -83,7 +83,10 @@ where
         let mut rng = ChoiceRng::new(env, a);
         match mcx::guarded(|| op.apply(pop, &mut rng)) {
             Ok(Ok(r)) => index_of(pop, r).map(SelObs::Idx).unwrap_or(SelObs::NotMember),
-            Ok(Err(e)) => SelObs::Err(e.kind()),
+            Ok(Err(e)) => {
+                LAST_SELECT_ERR.with(|l| *l.borrow_mut() = e.detail());
+                SelObs::Err(e.kind())
+            }
             Err(p) => SelObs::Panic(p),
         }
     })
@@ -388,6 +391,12 @@ fn scenario_on(c: &Config, values: &[i64], alpha: Alphabet) -> (u64, u64, Option
                 SelObs::Err(k) => admits.contains(k),
                 SelObs::NotMember | SelObs::Panic(_) => false,
             };
+            if let (true, SelObs::Err(k), true) = (ok, &o, bad.is_none()) {
+                // what the error says must be true of this call (every individual here has two results)
+                if let Some(w) = error_details_wrong(*k, n, None, Some(2)) {
+                    bad = Some((format!("select/error-details/{}", c.name.split('[').next().unwrap_or("")), format!("{label}: {w}")));
+                }
+            }
             if !ok && bad.is_none() {
                 let kind = match &o {
                     SelObs::Idx(_) => "member-where-error-is-due",
@@ -497,6 +506,11 @@ fn ragged_scenario(rows: &[Vec<i64>], c: usize, erased_form: bool) -> (u64, u64,
                 SelObs::Err(ErrKind::MissingCase) => c > min_len,
                 _ => false,
             };
+            if let (true, SelObs::Err(k), true) = (ok, &o, bad.is_none()) {
+                if let Some(w) = error_details_wrong(*k, n, Some(c), Some(min_len)) {
+                    bad = Some(("select/error-details/ragged-Lex".to_string(), format!("{}Lexicase({c}) on individuals with results {rows:?}: {w}", if erased_form { "dyn:" } else { "" })));
+                }
+            }
             if !ok && bad.is_none() {
                 let kind = match &o {
                     SelObs::Idx(_) => "member-where-error-is-due",
@@ -604,7 +618,7 @@ pub fn run(run: &mut Run) {
     ragged_lexicase(run);
     crate::bigpop::run_family(run, crate::bigpop::BigMode::Member);
     run.traces_validated = run.evaluations;
-    run.rule = "every selector configuration (Best, Worst, Random, Tournament(1..n+1), Lexicase(0..3 cases, 2 results available), lone Weighted, WeightedPair nestings of 2..4 real selectors, DynWeighted lists of 1..3 (also with a selection made after every building step); direct, behind &, through Select, and type-erased) x every population of size 0..n over 3 values x every word sequence of the mixed Grid(12)+Rep(12!,24) alphabet, and (n <= 3) of the alphabets that add the extreme words 0 and all-ones; plus Lexicase(0..3), direct and erased, on every ragged population (each individual with its own 0..3 results); plus large populations (big.population_sizes, 10 structured populations) for Best, Worst, Random, Lexicase(2), Lexicase(3) with one individual a result short (all tied: MissingTestCase is certain) and tournaments of sizes {1,2,3,7,11,12,16,17,31..33,64,65,162..164,n/65,n/64,n/3,n/2,n-2,n-1,n,n+1} on all streams of big.streams: a member or the documented tournament-size error; non-trivial = scenarios with more than one distinct outcome".into();
+    run.rule = "every selector configuration (Best, Worst, Random, Tournament(1..n+1), Lexicase(0..3 cases, 2 results available), lone Weighted, WeightedPair nestings of 2..4 real selectors, DynWeighted lists of 1..3 (also with a selection made after every building step); direct, behind &, through Select, and type-erased) x every population of size 0..n over 3 values x every word sequence of the mixed Grid(12)+Rep(12!,24) alphabet, and (n <= 3) of the alphabets that add the extreme words 0 and all-ones; plus Lexicase(0..3), direct and erased, on every ragged population (each individual with its own 0..3 results); plus large populations (big.population_sizes, 10 structured populations) for Best, Worst, Random, Lexicase(2), Lexicase(3) with one individual a result short (all tied: MissingTestCase is certain) and tournaments of sizes {1,2,3,7,11,12,16,17,31..33,64,65,162..164,n/65,n/64,n/3,n/2,n-2,n-1,n,n+1} on all streams of big.streams: a member or the documented tournament-size error; a reported error's details are true of the call (population size of a tournament-size error; index and count of a missing-test-case error); non-trivial = scenarios with more than one distinct outcome".into();
     run.bound("max_population", json!(max_n));
     run.bound("configurations", json!(configs.len()));
     run.bound("populations", json!(pops.len()));
